@@ -427,7 +427,7 @@ func buildJunk(op hysim.Op) ([]byte, unitMeta) {
 	case 3: // TLS-looking but version 3.10
 		b = append([]byte{0x16, 0x03, 0x0a, byte(n >> 8), byte(n)}, r.Bytes(n)...)
 	case 4: // handshake record header with a random length and random payload
-		l := r.Intn(1 << 16)
+		l := r.Pick(r.Intn(1<<16), r.Intn(1<<16), 0, 1, 16384, 16385, 65530, 65531, 65533, 65535)
 		b = append([]byte{0x16, 0x03, 0x01, byte(l >> 8), byte(l)}, r.Bytes(n)...)
 		m.unitEnd = 5 + l
 	case 5: // application_data record with exactly n random bytes
